@@ -71,6 +71,8 @@ def run(ctx):
     from .. import cloneid
     rc = ctx.rule("R-CLONE-ID", "the hand-written, iterative Cons::clone gives back the cells, elements and tail it was given")
     cloneid.check_cons(rc, lexpr, ctx.tier == "thorough")
+    req = ctx.rule("R-LIST-EQ", "the hand-written, iterative Cons::eq holds exactly for chains with the same elements in order and the same tail")
+    cloneid.check_cons_eq(req, lexpr)
     if ctx.tier == "thorough":
         m = db.mono()
         r2 = ctx.rule("R-PANIC-INV/mono", "the same inventory over the exact monomorphic reachability of the index operations")
